@@ -644,6 +644,7 @@ static int cmdTable()
 // ---------------------------------------------------------------------------------------------------------------
 static sigjmp_buf g_jb;
 static volatile int g_armed = 0;
+static volatile int g_phase = 0;      // 1 while a C++ member runs on the mirror object on its own (forwarders, observation)
 static void onSignal(int sig)
 {
    if(g_armed)
@@ -782,7 +783,11 @@ static std::string guarded(F f)
 template <class FC, class FX>
 static void forward(Line& L, FC fc, FX fx)
 {
-   std::string ce = guarded(fc), xe = guarded(fx);
+   // mirror first: if the C++ member itself faults, that is recorded as such and the C function is not called
+   g_phase = 1;
+   std::string xe = guarded(fx);
+   g_phase = 0;
+   std::string ce = guarded(fc);
 
    if(!ce.empty())
       L.cret = ce;
@@ -1763,7 +1768,8 @@ static int cmdRun(const char* casefile, const char* dir)
       else
       {
          g_track = false;
-         exc = "SIGNAL:" + std::to_string(sig);
+         exc = std::string(g_phase ? "XSIGNAL:" : "SIGNAL:") + std::to_string(sig);
+         g_phase = 0;
          dead = true;
       }
 
@@ -1782,11 +1788,21 @@ static int cmdRun(const char* casefile, const char* dir)
          if(sig2 == 0)
          {
             g_armed = 1;
+            g_phase = 1;
             std::string e2 = guarded([&]()
             {
-               dc = fullDump(*x.cs);
                dm = fullDump(*x.m);
             });
+            g_phase = 0;
+
+            if(e2.empty())
+               e2 = guarded([&]()
+            {
+               dc = fullDump(*x.cs);
+            });
+            else
+               e2 = "X" + e2;
+
             g_armed = 0;
             eq = !e2.empty() ? "DUMP" + e2 : (dc == dm ? "1" : "0");
 
@@ -1795,7 +1811,8 @@ static int cmdRun(const char* casefile, const char* dir)
          }
          else
          {
-            eq = "DUMPSIGNAL:" + std::to_string(sig2);
+            eq = std::string(g_phase ? "DUMPXSIGNAL:" : "DUMPSIGNAL:") + std::to_string(sig2);
+            g_phase = 0;
             dead = true;
          }
       }
